@@ -505,7 +505,8 @@ fn walk_next(w: &mut World, r: &mut SplitMix, wt: &Value, pool: &Vec<Value>, ste
         opts.push((g("payfin_pending", 4), json!({"e": "payfin", "h": h, "c": c, "out": "pending"})));
         opts.push((g("payfin_failed_warn", 3), json!({"e": "payfin", "h": h, "c": c, "out": "failed_warn"})));
         if !v.busy.contains(h) { opts.push((g("payfin_failed", 3), json!({"e": "payfin", "h": h, "c": c, "out": "failed"}))); }
-        opts.push((g("payfin_error", 3), json!({"e": "payfin", "h": h, "c": c, "out": "error", "err": "210"})));
+        let pay_errs = ["200", "201", "202", "203", "204", "205", "206", "207", "208", "209", "210", "-1", "transport", "nocode"];
+        opts.push((g("payfin_error", 3), json!({"e": "payfin", "h": h, "c": c, "out": "error", "err": pay_errs[r.below(pay_errs.len() as u64) as usize]})));
     }
     let mpp = w.cfg["mpp_ms"].as_u64().unwrap_or(60000);
     let ticks = [1000u64, 1000, 5000, (mpp / 2 / 1000) * 1000, mpp.saturating_sub(1000), mpp, mpp + 1000];
@@ -641,8 +642,13 @@ pub fn run_case(case: &Value) -> Value {
                         let epoch = w.node.lock().unwrap().epoch;
                         let cand = w.delivered.iter().position(|d| !w.answered.contains(&d["uid"].as_u64().unwrap()) && d["epoch"].as_u64() != Some(epoch)
                             && !w.delivered.iter().any(|d2| d2["epoch"].as_u64() == Some(epoch) && d2.get("orig") == Some(&d["orig"])));
+                        // ("one": only the first of them, so that a multi-part set stays incomplete after the restart)
+                        let only_one = e.get("one").is_some();
                         match cand {
-                            Some(i) => { let mut d = w.delivered[i].clone(); d["e"] = json!("htlc"); htlc_event(&mut w, &d) }
+                            Some(i) => { if only_one { si += 1; } let mut d = w.delivered[i].clone(); d["e"] = json!("htlc");
+                                         // blocks were mined while the node was down: lightningd replays the htlc with a smaller cltv_expiry_relative
+                                         if let Some(rel) = e.get("rel") { d["req"]["htlc"]["cltv_expiry_relative"] = rel.clone(); }
+                                         htlc_event(&mut w, &d) }
                             None => { si += 1; continue; }
                         }
                     } else if e["e"] == "probe_retry" {
